@@ -39,6 +39,8 @@ def check(ctx):
     from symfc.spg_reps import SpgRepsO2, SpgRepsO3, SpgRepsO4
 
     rng = np.random.default_rng(ctx.seed)
+    from bigcell import check_bigcells
+    check_bigcells(ctx, "C02", np.random.default_rng(ctx.seed + 2002))   # supercells of 36-216 atoms
     from o1 import check_o1
     check_o1(ctx, "C02", np.random.default_rng(ctx.seed + 1001))   # the exported first-order basis
     ctx.rule = ("cells: triclinic P1/P-1, monoclinic P/C, orthorhombic C, hexagonal, rhombohedral, cubic primitive/centred, n_lp in {1,2,4}, shuffled atoms; operations: spglib, "
